@@ -114,7 +114,9 @@ func (iq *IQ) UnmarshalXML(d *xml.Decoder, start xml.StartElement) error {
 
 		switch tt := t.(type) {
 		case xml.StartElement:
-			if tt.Name.Local == "error" {
+			// The error of the stanza is the <error/> of the stanza's own namespace: a payload of
+			// another namespace may be called the same.
+			if tt.Name.Local == "error" && tt.Name.Space == start.Name.Space {
 				var xmppError Err
 				err = d.DecodeElement(&xmppError, &tt)
 				if err != nil {
